@@ -294,7 +294,21 @@ def check_channels(repo: Repo, run: Run, prop: str) -> None:
                            f"{cname}.clone: field `{field}` ({ann}) " + ("is copied" if not alias else
                            "is aliased, not cloned: bindings loaded into the per-call copy are written into the object the runner keeps"),
                            ev.loc(n_))
-    run.floor(f"{prop}.H3", n3, 2)
+    # containers of mutable elements: every element stored into the new container is a fresh clone on all paths
+    for cname in ("NameContainer",):
+        clone = class_methods(ev.cls(cname)).get("clone")
+        stores = [n_ for n_ in ast.walk(clone) if isinstance(n_, ast.Assign) and isinstance(n_.targets[0], ast.Subscript)
+                  and isinstance(n_.targets[0].value, ast.Name) and n_.targets[0].value.id != "self"]
+        for st in stores:
+            n3 += 1
+            fresh = is_fresh(st.value, classes) and not isinstance(strip_cast(st.value), (ast.Dict, ast.List))
+            run.ob(f"{prop}.H3", f"{cname}.clone|elements", fresh,
+                   f"{cname}.clone stores `{ast.unparse(st.value)[:50]}` into the copy: " + ("a fresh clone" if fresh else
+                   "the original Referent object is shared with the container the runner keeps; load_values() then writes this call's binding into it"),
+                   ev.loc(st))
+        if not stores:
+            run.inconclusive(f"{prop}.H3", f"{cname}.clone", "no element store found")
+    run.floor(f"{prop}.H3", n3, 3)
 
     # H4: the caller's bindings are only read --------------------------------
     n4 = 0
